@@ -305,6 +305,8 @@ class Exec:
             if isinstance(v, (VInt, VBool)):
                 return VReal(as_real(v))
             return v
+        if isinstance(t, TStr) and isinstance(v, VBoundMethod):
+            return VStr.const("method:" + v.name.lstrip("_"))
         if isinstance(t, TFilePtr):
             if isinstance(v, VNone):
                 return self.flat.unpack(t, self.flat.pack(t, v))
@@ -526,6 +528,11 @@ class Exec:
                 comps = [z3.Store(a, i, t) for a, t in zip(comps, terms)]
         return VSeq(comps, z3.IntVal(len(items)), et, "list")
 
+    def e_Dict(self, node, st):
+        if node.keys:
+            raise Unsupported("non-empty dict literal")
+        return VMap(z3.K(z3.IntSort(), z3.BoolVal(False)), z3.K(z3.IntSort(), z3.IntVal(0)), z3.IntVal(0))
+
     def e_UnaryOp(self, node, st):
         v = self.eval(node.operand, st)
         if isinstance(node.op, ast.Not):
@@ -567,6 +574,10 @@ class Exec:
 
     def ite(self, st, c, a, b):
         a, b = self.deref_if_needed(a), self.deref_if_needed(b)
+        if isinstance(a, VBoundMethod):
+            a = VStr.const("method:" + a.name.lstrip("_"))
+        if isinstance(b, VBoundMethod):
+            b = VStr.const("method:" + b.name.lstrip("_"))
         if isinstance(a, VNone) and isinstance(b, VNone):
             return a
         if isinstance(a, VNone) or isinstance(b, VNone) or isinstance(a, VOpt) or isinstance(b, VOpt):
@@ -747,6 +758,10 @@ class Exec:
             return z3.And(z3.Not(a.isnone), self.equal(st, a.val, b))
         if isinstance(b, VOpt):
             return z3.And(z3.Not(b.isnone), self.equal(st, a, b.val))
+        if isinstance(a, VBoundMethod) and isinstance(b, VStr):
+            a = VStr.const("method:" + a.name.lstrip("_"))
+        if isinstance(b, VBoundMethod) and isinstance(a, VStr):
+            b = VStr.const("method:" + b.name.lstrip("_"))
         if isinstance(a, VStr) and isinstance(b, VStr):
             return a.t == b.t
         if isinstance(a, VFunc) and isinstance(b, VFunc):
@@ -814,6 +829,11 @@ class Exec:
                 return self.inline_getter(st, base, g)
             if cls in self.repo.classes and self.repo.find_method(cls, attr) is not None:
                 return VBoundMethod(base, attr)
+            if cls in self.repo.classes:
+                for k in self.repo.mro(cls):
+                    pre = f"_{k}__"
+                    if attr.startswith(pre) and self.repo.find_method(cls, "__" + attr[len(pre):]) is not None:
+                        return VBoundMethod(base, "__" + attr[len(pre):])
             k, cn = self.repo.find_class_const(cls, name) if cls in self.repo.classes else (None, None)
             if cn is not None:
                 return self.eval_const(cn, self.repo.classes[k].module)
